@@ -448,7 +448,7 @@ pub fn run(ctx: &Ctx) -> i32 {
         seed: ctx.seed,
         scenarios: if super::miri() { 2 } else { tier.pick(640, 20_000) },
         threads: super::threads(),
-        watchdog: Duration::from_secs(300),
+        watchdog: Duration::from_secs(if super::miri() { 3_000 } else { 300 }),
         budget: Duration::from_secs(tier.pick(90, 900)),
         only: ctx.only,
     };
